@@ -1,0 +1,100 @@
+//go:build verif
+
+// Contracts for the verification engine in /verif (comment-only file; declares nothing).
+// Syntax: DESIGN.md section 3.3. Constants P, N, R, W and modeq are declared in internal/field/contracts_verif.go.
+
+package scalar
+
+//@ const R2N = 0x9d671cd581c69bc5e697f5e45bcd07c6741496c20e7cf878896cf21467d7d140
+
+//@ func cmovznzU64
+//@   mode bv
+//@   requires arg1 <= 1
+//@   ensures sel: *out1 == ite(arg1 == 0, arg2, arg3)
+//@   modifies *out1
+
+//@ func Selectznz
+//@   mode bv
+//@   requires c01: arg1 <= 1
+//@   ensures sel: forall(i, 0, 4, out1[i] == ite(arg1 == 0, old(arg2[i]), old(arg3[i])))
+//@   modifies *out1
+
+//@ func IsNonZero
+//@   mode bv
+//@   ensures r: result == ite(u == 0, 0, 1)
+
+//@ func IsZero
+//@   mode bv
+//@   ensures r: result == ite(u == 0, 1, 0)
+
+//@ func Reduce
+//@   mode bv
+//@   ensures flag: result == ite(old(eval(x)) < N, 1, 0)
+//@   ensures val: eval(x) == ite(old(eval(x)) < N, old(eval(x)), old(eval(x)) - N)
+//@   modifies *x
+
+// ---- Montgomery glue lemmas (Lean: lemmas/Secp/SecpG.lean) ----
+
+//@ lemma glue_add_n(o, a, b) {lean: Secp.glue_add}: imp(a < N && b < N && o == (a + b) % N, fromMn(o) == nadd(fromMn(a), fromMn(b)))
+//@ lemma glue_sub_n(o, a, b) {lean: Secp.glue_sub}: imp(a < N && b < N && o == (a - b) % N, fromMn(o) == nsub(fromMn(a), fromMn(b)))
+
+//@ func Add
+//@   mode int
+//@   requires eval(arg1) < N && eval(arg2) < N
+//@   ensures val: eval(out1) == (old(eval(arg1)) + old(eval(arg2))) % N
+//@   derives fv: fromMn(eval(out1)) == nadd(fromMn(old(eval(arg1))), fromMn(old(eval(arg2)))) by glue_add_n(eval(out1), old(eval(arg1)), old(eval(arg2)))
+//@   derives wf: eval(out1) < N
+//@   modifies *out1
+
+//@ func Sub
+//@   mode int
+//@   requires eval(arg1) < N && eval(arg2) < N
+//@   ensures val: eval(out1) == (old(eval(arg1)) - old(eval(arg2))) % N
+//@   derives fv: fromMn(eval(out1)) == nsub(fromMn(old(eval(arg1))), fromMn(old(eval(arg2)))) by glue_sub_n(eval(out1), old(eval(arg1)), old(eval(arg2)))
+//@   derives wf: eval(out1) < N
+//@   modifies *out1
+
+//@ func SetOne
+//@   mode int
+//@   ensures val: eval(out1) == R % N
+//@   derives fv: fromMn(eval(out1)) == Fn(1)
+//@   modifies *out1
+
+//@ lemma glue_mul_n(o, a, b) {lean: Secp.glue_mul}: imp(a < N && b < N && o < N && modeq(o * R, a * b, N), fromMn(o) == nmul(fromMn(a), fromMn(b)))
+
+//@ func Mul
+//@   mode staged
+//@   requires eval(arg1) < N && eval(arg2) < N
+//@   prelemma bound: old(eval(arg1)) * old(eval(arg2)) <= (N - 1) * (N - 1)
+//@   ensures mont: modeq(eval(out1) * R, old(eval(arg1)) * old(eval(arg2)), N)
+//@   ensures wf: eval(out1) < N
+//@   derives fv: fromMn(eval(out1)) == nmul(fromMn(old(eval(arg1))), fromMn(old(eval(arg2)))) by glue_mul_n(eval(out1), old(eval(arg1)), old(eval(arg2)))
+//@   modifies *out1
+
+//@ lemma glue_to_n(o, a) {lean: Secp.glue_to}: imp(a < N && o < N && modeq(o * R, a * R2N, N), fromMn(o) == nofint(a))
+//@ lemma glue_from_n(o, a) {lean: Secp.glue_from}: imp(a < N && o < N && modeq(o * R, a, N), fint(fromMn(a)) == o)
+
+//@ func Square
+//@   mode staged
+//@   requires eval(arg1) < N
+//@   prelemma bound: old(eval(arg1)) * old(eval(arg1)) <= (N - 1) * (N - 1)
+//@   ensures mont: modeq(eval(out1) * R, old(eval(arg1)) * old(eval(arg1)), N)
+//@   ensures wf: eval(out1) < N
+//@   derives fv: fromMn(eval(out1)) == nmul(fromMn(old(eval(arg1))), fromMn(old(eval(arg1)))) by glue_mul_n(eval(out1), old(eval(arg1)), old(eval(arg1)))
+//@   modifies *out1
+
+//@ func FromMontgomery
+//@   mode staged
+//@   requires eval(arg1) < N
+//@   ensures mont: modeq(eval(out1) * R, old(eval(arg1)), N)
+//@   ensures wf: eval(out1) < N
+//@   derives fv: fint(fromMn(old(eval(arg1)))) == eval(out1) by glue_from_n(eval(out1), old(eval(arg1)))
+//@   modifies *out1
+
+//@ func ToMontgomery
+//@   mode staged
+//@   requires eval(arg1) < N
+//@   ensures mont: modeq(eval(out1) * R, old(eval(arg1)) * R2N, N)
+//@   ensures wf: eval(out1) < N
+//@   derives fv: fromMn(eval(out1)) == nofint(old(eval(arg1))) by glue_to_n(eval(out1), old(eval(arg1)))
+//@   modifies *out1
